@@ -2,14 +2,19 @@
 model (eq) and with the declarative first-outlet walk (spec)."""
 import numpy as np
 from common import (gen_raster_net, mk_raster, canon_idx, ints, net_features, max_path_len,
-                    exc_class, topo_of)
+                    exc_class, topo_of, gen_channel_net, ds_to_nextxy, aged)
 
 OPS = ["basins(default)", "basins(idxs,ids)", "basins(xy,ids)", "basins(errors)", "basin_outlets"]
 RULE = ("random loop-free networks on rasters <= 56 cells (quick) / <= 400 (thorough): D8 networks from "
         "random DEMs and arbitrary forests; outlet sets = pits, interior cells, nested outlets, duplicates, "
         "coordinates (any position inside the cell: centre, k/8, 2**-20/-33/-40 of a cell from the low / high edge; "
-        "unit and dyadic georeferences); ids random non-zero of dtype u8/u32/i64. non-trivial = >= 2 valid cells, >= 1 confluence, "
-        "path length >= 3; distinct = SHA-1 of (op, network, outlets, ids)")
+        "unit and dyadic georeferences); ids random non-zero of dtype u8/u32/i64. One network in five consists mostly of "
+        "ONE long flow path (1 x N / N x 1 channels and snakes through r x c rasters along rows / columns from any corner, "
+        "5..40 cells, a quarter of them up to 4 x the size limit; main path > half of the cells, the rest nodata or short "
+        "side branches, sometimes cut by a nodata cell). Every network is used with the default cell order or (a third; "
+        "three quarters of the long-path networks) with order_cells('sort'), as an ftype='nextxy' object, or parsed from "
+        "its NEXTXY raster with from_array. non-trivial = >= 2 valid cells, >= 1 confluence, "
+        "path length >= 3; distinct = SHA-1 of (op, network, build, outlets, ids)")
 ID_DTYPES = [np.uint8, np.uint32, np.int64, np.uint64]
 # georeferences for outlets given by coordinates: all coefficients dyadic, so that cell edges, the offsets below and
 # the library's inverse transform are exact in binary64 and 'the cell containing the point' is unambiguous
@@ -57,18 +62,53 @@ def _xy_of(rng, ctx, outlets, shape, tr):
     return xs, ys, cells
 
 
+def _build(ctx, ds, shape, how, transform=None):
+    """the network as a FlwdirRaster: 'walk' = the default object (D8 type, walk order); 'sort' = the same after
+    order_cells('sort'); 'nextxy' = an ftype='nextxy' object (always ordered by rank); 'nextxy-parsed' = parsed from the
+    network's NEXTXY raster by pyflwdir.from_array. May raise ValueError (constructor rejects)."""
+    n = len(ds)
+    kw = {} if transform is None else {"transform": transform}
+    if how == "nextxy-parsed":
+        import pyflwdir
+        nx, ny = ds_to_nextxy(ds, shape, pit_code=ctx.rng.choice([-9, -9, -10]))
+        data = (nx, ny) if ctx.rng.random() < 0.5 else np.stack([nx, ny])
+        flw = pyflwdir.from_array(data, ftype="nextxy", **kw)
+        if canon_idx(flw.idxs_ds, n) == list(ds):
+            return aged(flw)
+        ctx.count("nextxy-parse-differs(C01 matter; object built from the network instead)")
+        how = "nextxy"
+    if how == "nextxy":
+        return mk_raster(ds, shape, ftype="nextxy", **kw)
+    flw = mk_raster(ds, shape, **kw)
+    if how == "sort":
+        flw.order_cells("sort")
+    return flw
+
+
 def run(ctx):
     rng = ctx.rng
     ncase = (150 if ctx.tier == "quick" else 2500) * ctx.escalate
     max_cells = 56 if ctx.tier == "quick" else 400
     for k in range(ncase):
-        ds, shape, fam = gen_raster_net(rng, max_cells=max_cells)
+        if rng.random() < 0.2:
+            # mostly ONE long flow path: small (5..40 cells) and, a quarter of them, up to 4 x the usual size limit
+            ds, shape, fam = gen_channel_net(rng, max_cells=4 * max_cells if rng.random() < 0.25 else 40)
+            how = rng.choice(["walk", "sort", "nextxy", "nextxy-parsed"])
+            plen = max_path_len(ds)
+            ctx.count("feature:long-path:" + ("> half of the cells" if 2 * plen > len(ds) else "<= half of the cells"))
+            ctx.count("feature:long-path:cells " + ("<= 40" if len(ds) <= 40 else "> 40"))
+            if how != "walk":
+                ctx.count("feature:long-path:rank-ordered (sort / nextxy)")
+        else:
+            ds, shape, fam = gen_raster_net(rng, max_cells=max_cells)
+            how = rng.choice(["walk"] * 6 + ["sort", "nextxy", "nextxy-parsed"])
         n = len(ds)
         feat = net_features(ds)
         nontriv = feat["valid"] >= 2 and feat["confluences"] >= 1 and max_path_len(ds) >= 3
         ctx.count("family:" + fam)
+        ctx.count("feature:build:" + how)
         try:
-            flw = mk_raster(ds, shape)
+            flw = _build(ctx, ds, shape, how)
         except ValueError:
             ctx.count("ctor-rejected")
             continue
@@ -77,6 +117,8 @@ def run(ctx):
         mode = rng.choice(["default", "idxs", "idxs", "xy", "err"])
         ctx.count("mode:" + mode)
         base = {"ds": ds, "shape": list(shape)}
+        if how != "walk":
+            base["build"] = how
         if mode == "default":
             if rng.random() < 0.35:
                 # the full basin map with user ids for the pits, asked for before the default map on the same object
@@ -127,7 +169,7 @@ def run(ctx):
                 if tr is not None:
                     from affine import Affine
                     try:
-                        flw = mk_raster(ds, shape, transform=Affine(*tr))
+                        flw = _build(ctx, ds, shape, how, transform=Affine(*tr))
                     except ValueError:
                         ctx.count("ctor-rejected")
                         continue
